@@ -273,12 +273,13 @@ def hdl21_naming_encoder(obj: Any) -> Any:
     from .instance import Instance
     from .generator import Generator
     from .primitives import Primitive, PrimitiveCall
-    from .prefix import Prefixed
+    from .prefix import Prefixed, _EXACT
 
     if isinstance(obj, Prefixed):
         # Equal numbers written with different mantissa/prefix combinations (e.g. `1000*m` and `1*UNIT`)
         # are equal parameter values, and must produce the same name. Encode the value, not its fields.
-        return str(obj._value().normalize())
+        # (Normalized in the exact context: the default one would round away everything past 28 digits.)
+        return str(_EXACT.normalize(obj._value()))
 
     if isinstance(obj, (set, frozenset)):
         # Sets iterate in hash order, which differs from process to process. Encode their elements in a reproducible order.
